@@ -65,8 +65,20 @@ pub fn reconcile_aliases(crate_parsed_data: &mut BTreeMap<CrateName, ParsedData>
             .consts
             .sort_by(|a, b| a.id.original.cmp(&b.id.original));
 
-        // put back our import types for file generation.
-        parsed_data.import_types = import_types;
+        // put back our import types for file generation. An import of a type that carries
+        // `serde(rename)` has to name it the way its own module defines it.
+        parsed_data.import_types = import_types
+            .into_iter()
+            .map(|mut import| {
+                if let Some(renamed) = serde_renamed
+                    .get(&import.type_name)
+                    .and_then(|by_crate| by_crate.get(&import.base_crate))
+                {
+                    import.type_name = renamed.to_owned();
+                }
+                import
+            })
+            .collect();
     }
 }
 
@@ -181,11 +193,23 @@ fn resolve_renamed(
 ) -> Option<String> {
     let name_map = serde_renamed.get(id)?;
 
-    // Find in imports.
+    // Find in imports: a `use` of the type itself first, then glob imports.
     import_types
         .iter()
         .filter(|i| i.type_name == id)
         .find_map(|import_ref| name_map.get(&import_ref.base_crate))
+        .or_else(|| {
+            import_types
+                .iter()
+                .filter(|i| i.type_name == "*")
+                .filter_map(|import_ref| {
+                    name_map
+                        .get(&import_ref.base_crate)
+                        .map(|renamed| (&import_ref.base_crate, renamed))
+                })
+                .min_by_key(|(base_crate, _)| *base_crate)
+                .map(|(_, renamed)| renamed)
+        })
         // Fallback to looking up in our current namespace.
         .or_else(|| name_map.get(crate_name))
         .map(ToOwned::to_owned)
